@@ -1,13 +1,103 @@
-(* C09 -- rule ordering honours every constraint, is canonical, rejects cycles loudly. *)
-From MdIt Require Import Prims Ruler.
-Local Open Scope N_scope.
+(* C09 -- rule ordering honours every constraint, is canonical, rejects cycles loudly.
+   Statements only; proofs are in proofs/RulerProofs.v (specification level) and
+   proofs/RulerRefine.v (compile(), modelled statement by statement, computes the specification). *)
+From MdIt Require Import Prims Ruler RulerProofs RulerRefine.
+From Coq Require Import Permutation.
+Local Open Scope list_scope.
 
-(* placeholder until proofs/RulerProofs.v lands: executable sanity of model and specification *)
+(* FULL STATEMENT, proved for the model of src/common/ruler.rs (model/Ruler.v; tied to the
+   implementation by the correspondence check on every run):
+
+   for every rule set ds (any marks, aliases, duplicate or absent or own marks in constraints,
+   priorities, insertion order) compile ds is
+     - panic Missing, when some require(m) names a mark no rule holds;
+     - otherwise the canonical order: repeatedly the first rule, in rank order (before_all, normal,
+       after_all; insertion order inside a class), that is not placed and whose predecessors all are;
+       this order is a permutation of the rules and respects every before/after constraint
+       (through every alias);
+     - panic Cyclic exactly when no admissible order exists;
+   and a Ruler answers the same on every use. *)
+
+(* 1. compile = specification, all rule sets *)
+Theorem C09_compile_is_canonical : forall ds,
+  compile ds = if requires_ok ds then match greedy_rank ds with Some o => inr o | None => inl (Panic Cyclic) end
+               else inl (Panic Missing).
+Proof. exact compile_spec. Qed.
+
+(* 2. a successful compile is a permutation of the rules satisfying every constraint *)
+Theorem C09_order_sound : forall ds o, compile ds = inr o ->
+  Permutation o (seq 0 (length ds)) /\
+  (forall i j, In i o -> edge ds j i = true -> (j < length ds)%nat -> before o j i).
+Proof.
+  intros ds o H. rewrite compile_spec in H. destruct (requires_ok ds); [|discriminate].
+  destruct (greedy_rank ds) as [o'|] eqn:G; [|discriminate]. injection H as <-. exact (greedy_sound ds o' G).
+Qed.
+
+(* 3. the only possible panics are Missing and Cyclic, with exact conditions:
+      Missing iff a requirement names an absent mark; Cyclic iff requirements hold and no admissible
+      order (permutation in which each rule comes after all its predecessors) exists *)
+Theorem C09_missing_iff : forall ds, compile ds = inl (Panic Missing) <-> requires_ok ds = false.
+Proof.
+  intros ds. rewrite compile_spec. destruct (requires_ok ds); [|split; reflexivity].
+  destruct (greedy_rank ds); split; discriminate.
+Qed.
+
+Theorem C09_cyclic_iff : forall ds,
+  compile ds = inl (Panic Cyclic) <-> (requires_ok ds = true /\ ~ exists p, admissible ds p).
+Proof.
+  intros ds. rewrite compile_spec, <- greedy_none_iff_unsatisfiable.
+  destruct (requires_ok ds); [|split; [discriminate|intros [H _]; discriminate]].
+  destruct (greedy_rank ds); split; try discriminate; auto. intros [_ H]. discriminate.
+Qed.
+
+Theorem C09_no_other_outcome : forall ds,
+  (exists o, compile ds = inr o) \/ compile ds = inl (Panic Missing) \/ compile ds = inl (Panic Cyclic).
+Proof.
+  intros ds. rewrite compile_spec. destruct (requires_ok ds); [|auto]. destruct (greedy_rank ds) as [o|]; [left; exists o; reflexivity|auto].
+Qed.
+
+(* 4. never a partial order: whenever any admissible order exists and the requirements hold, compile succeeds *)
+Theorem C09_complete : forall ds p, requires_ok ds = true -> admissible ds p -> exists o, compile ds = inr o.
+Proof.
+  intros ds p R A. rewrite compile_spec, R. destruct (greedy_complete ds p A) as [o ->]. exists o. reflexivity.
+Qed.
+
+(* 5. the same on every use: the cache returns what the first use computed, a panic repeats *)
+Theorem C09_same_on_every_use : forall r, let '(r', c) := r_iter r in r_iter r' = (r', c).
+Proof. exact r_iter_stable. Qed.
+
+Theorem C09_iter_fresh : forall ds,
+  snd (r_iter (Ruler ds None)) =
+  if requires_ok ds then
+    match greedy_rank ds with
+    | Some o => inr (map (fun i => match nth_error ds i with Some d => value d | None => 0%N end) o)
+    | None => inl (Panic Cyclic) end
+  else inl (Panic Missing).
+Proof. exact r_iter_fresh. Qed.
+
+(* non-vacuity: alias fan-out, priority against dependency, absent and own marks *)
+Local Open Scope N_scope.
 Example C09_examples :
-  let a := Item [1] 10 PNormal [] in
-  let b := Item [2] 20 PNormal [CBefore 1] in
-  let c := Item [3] 30 PAfterAll [CRequire 9] in
-  compile [a; b] = inr [1; 0]%nat /\ greedy_rank [a; b] = Some [1; 0]%nat /\
-  compile [a; b; c] = inl (Panic Missing) /\
+  let a := Item [1; 7] 10 PNormal [] in
+  let b := Item [2] 20 PAfterAll [CBefore 7] in
+  let c := Item [3; 7] 30 PBeforeAll [CAfter 2; CBefore 99] in
+  compile [a; b] = inr [1; 0]%nat /\
+  compile [a; b; c] = inr [1; 2; 0]%nat /\
+  compile [a; b; Item [3; 7] 30 PNormal [CBefore 2]] = inl (Panic Cyclic) /\
+  compile [a; c] = inr [1; 0]%nat /\
+  compile [a; b; Item [4] 40 PNormal [CRequire 9]] = inl (Panic Missing) /\
   compile [Item [1] 1 PNormal [CBefore 1]] = inl (Panic Cyclic).
 Proof. vm_compute. repeat split. Qed.
+
+Example C09_admissible_nonvacuous :
+  admissible [Item [1; 7] 10 PNormal []; Item [2] 20 PAfterAll [CBefore 7]] [1; 0]%nat.
+Proof. apply greedy_admissible. vm_compute. reflexivity. Qed.
+
+Print Assumptions C09_compile_is_canonical.
+Print Assumptions C09_order_sound.
+Print Assumptions C09_missing_iff.
+Print Assumptions C09_cyclic_iff.
+Print Assumptions C09_no_other_outcome.
+Print Assumptions C09_complete.
+Print Assumptions C09_same_on_every_use.
+Print Assumptions C09_iter_fresh.
